@@ -16,7 +16,7 @@
    reference semantics (RefSem.v: deliver / deliver_block / deliver_list / loop_test), which
    the correspondence check compares with the implementation and with the net model on every
    run (all completion orders of generated programs, incl. re-entrant ones). *)
-From PFDL Require Import RefSem RunCase Monitors RefShape RefDen RefC01.
+From PFDL Require Import RefSem RunCase Monitors RefShape RefDen RefC01 RefBase RefProgress RefConfluence.
 
 Theorem C05_sync_partial :
   forall orc body fuel (s : sched) b s',
@@ -35,3 +35,412 @@ Theorem C05_all_schedules_no_stall :
     run_script orc imm fuel body sched0 script = Ok tr -> holds_C01 tr = true.
 Proof. exact C01_ref. Qed.
 Print Assumptions C05_all_schedules_no_stall.
+
+(* ==== ALL schedules: the history is a permutation of the denotation (RefConfluence.v) ==== *)
+(* Property C05 (and the execution-order properties in general), all schedules — the
+   denotation [den_*] of RefDen.v describes EVERY completion order, up to interleaving.
+   This file contains only statements proved in RefConfluence.v.
+
+   Setting: an oracle whose answers do not depend on the query counter ([counter_free orc],
+   e.g. [corc rho], or the harness oracle [orc_of vals] with at most one value); ANY choice
+   [imm] of services completed from inside their own notification; ANY script of API calls
+   (completions in any order, unknown / duplicate identifiers, junk, repeated start(),
+   registrations, observers).
+
+   [trace_devs tr] are the erased events of a history: what function 0 (registered once per
+   kind by default) is told, and the oracle queries, call after call.
+
+   What is proved:
+   (1) C05_confluence — if the order completed, the denotation of the production task's body
+       exists (for some fuel) and the history is a PERMUTATION of
+           production task started, den_block body, production task finished.
+       C05_confluence_any_fuel — ... for every fuel at which den_block succeeds.
+       In particular a run that contains a while loop whose (constant) guard is true never
+       completes, and guards / limits are evaluated as often as the denotation says.
+   (2) C05_confluence_count / _count_occ — every event (service started at a site with given
+       parameters, task finished, query of a variable, ...) occurs in the history exactly as
+       often as in the denotation.
+   (3) C05_literal_loop_all_schedules — an order that is one counting loop with literal limit N:
+       the history is a permutation of the body's denotation for the indices 0..N-1 between
+       started / finished; C05_service_in_literal_loop — its service is started exactly N times.
+   (4) the invariants behind (1): C05_start_invariant (what a start emits + the residual
+       denotation of the resulting state is a permutation of the denotation),
+       C05_deliver_invariant (what a delivery emits + residual after = residual before).
+   (4b) histories that are NOT complete: C05_confluence_prefix — whenever den_block of the body
+       succeeds, at every point of every history "emitted so far ++ residual of the state reached"
+       is a permutation of the denotation; C05_confluence_prefix_count — so no event ever occurs
+       more often than in the denotation; C05_service_in_literal_loop_at_most.
+       C05_residual_exists_start / _deliver — the residual exists whenever the denotation does.
+   (5) C05_confluence_nonvacuous — a Parallel of two tasks followed by a counting loop whose
+       limit is read from a variable, completed out of source order: the history differs from
+       the denotation and is a permutation of it.
+       C05_confluence_needs_counter_free — for an oracle that depends on the query counter the
+       multiset of events depends on the completion order (so the hypothesis is needed). *)
+Theorem C05_confluence :
+  forall orc imm fuel body script tr,
+    counter_free orc ->
+    run_script orc imm fuel body sched0 script = Ok tr ->
+    (exists r, In r tr /\ cr_final r = true) ->
+    exists F mid q',
+      den_block orc F [] body 0 0 = Ok (mid, q') /\
+      Permutation.Permutation
+        (trace_devs tr)
+        (DN TS production_task root_site [] :: mid ++ [DN TF production_task root_site []]).
+Proof. exact confluence. Qed.
+Print Assumptions C05_confluence.
+
+Theorem C05_confluence_any_fuel :
+  forall orc imm fuel body script tr F mid q',
+    counter_free orc ->
+    run_script orc imm fuel body sched0 script = Ok tr ->
+    (exists r, In r tr /\ cr_final r = true) ->
+    den_block orc F [] body 0 0 = Ok (mid, q') ->
+    Permutation.Permutation
+      (trace_devs tr)
+      (DN TS production_task root_site [] :: mid ++ [DN TF production_task root_site []]).
+Proof. exact confluence_any_fuel. Qed.
+Print Assumptions C05_confluence_any_fuel.
+
+Theorem C05_confluence_last :
+  forall orc imm fuel body script tr r0,
+    counter_free orc ->
+    run_script orc imm fuel body sched0 script = Ok tr ->
+    tr <> [] -> cr_final (last tr r0) = true ->
+    exists F mid q',
+      den_block orc F [] body 0 0 = Ok (mid, q') /\
+      Permutation.Permutation
+        (trace_devs tr)
+        (DN TS production_task root_site [] :: mid ++ [DN TF production_task root_site []]).
+Proof. exact confluence_last. Qed.
+Print Assumptions C05_confluence_last.
+
+Theorem C05_confluence_corc :
+  forall rho imm fuel body script tr,
+    run_script (corc rho) imm fuel body sched0 script = Ok tr ->
+    (exists r, In r tr /\ cr_final r = true) ->
+    exists F mid q',
+      den_block (corc rho) F [] body 0 0 = Ok (mid, q') /\
+      Permutation.Permutation
+        (trace_devs tr)
+        (DN TS production_task root_site [] :: mid ++ [DN TF production_task root_site []]).
+Proof. exact (fun rho imm fuel body script tr => confluence _ imm fuel body script tr (corc_counter_free rho)). Qed.
+Print Assumptions C05_confluence_corc.
+
+Theorem C05_confluence_run_ref :
+  forall (c : runcase) tr,
+    List.length (rc_vals c) <= 1 ->
+    run_ref c = Ok tr ->
+    (exists r, In r tr /\ cr_final r = true) ->
+    exists body F mid q',
+      unfold_program (p_tasks (rc_prog c)) 200 = Ok body /\
+      den_block (orc_of (rc_vals c)) F [] body 0 0 = Ok (mid, q') /\
+      Permutation.Permutation
+        (trace_devs tr)
+        (DN TS production_task root_site [] :: mid ++ [DN TF production_task root_site []]).
+Proof. exact confluence_run_ref. Qed.
+Print Assumptions C05_confluence_run_ref.
+
+Theorem C05_confluence_count :
+  forall orc imm fuel body script tr F mid q' (p : dev -> bool),
+    counter_free orc ->
+    run_script orc imm fuel body sched0 script = Ok tr ->
+    (exists r, In r tr /\ cr_final r = true) ->
+    den_block orc F [] body 0 0 = Ok (mid, q') ->
+    List.length (filter p (trace_devs tr)) =
+    List.length (filter p (DN TS production_task root_site [] :: mid ++ [DN TF production_task root_site []])).
+Proof. exact confluence_count. Qed.
+Print Assumptions C05_confluence_count.
+
+Theorem C05_confluence_count_occ :
+  forall orc imm fuel body script tr F mid q' (e : dev),
+    counter_free orc ->
+    run_script orc imm fuel body sched0 script = Ok tr ->
+    (exists r, In r tr /\ cr_final r = true) ->
+    den_block orc F [] body 0 0 = Ok (mid, q') ->
+    count_occ dev_eq_dec (trace_devs tr) e =
+    count_occ dev_eq_dec (DN TS production_task root_site [] :: mid ++ [DN TF production_task root_site []]) e.
+Proof. exact confluence_count_occ_dev. Qed.
+Print Assumptions C05_confluence_count_occ.
+
+Theorem C05_literal_loop_all_schedules :
+  forall orc imm fuel script tr v N b,
+    counter_free orc ->
+    run_script orc imm fuel [XCount v (LimInt N) b] sched0 script = Ok tr ->
+    (exists r, In r tr /\ cr_final r = true) ->
+    exists Ds, List.length Ds = N /\
+               (forall k, k < N -> exists Fk qa qb,
+                     den_block orc Fk [(v, k)] b 0 qa = Ok (nth k Ds [], qb)) /\
+               Permutation.Permutation
+                 (trace_devs tr)
+                 (DN TS production_task root_site [] :: concat Ds ++ [DN TF production_task root_site []]).
+Proof. exact RefConfluence.C05_literal_loop_all_schedules. Qed.
+Print Assumptions C05_literal_loop_all_schedules.
+
+Theorem C05_service_in_literal_loop :
+  forall orc imm fuel script tr v N n a ins,
+    counter_free orc ->
+    run_script orc imm fuel [XCount v (LimInt N) [XService n a ins]] sched0 script = Ok tr ->
+    (exists r, In r tr /\ cr_final r = true) ->
+    List.length (filter (is_start_of n a) (trace_devs tr)) = N.
+Proof. exact RefConfluence.C05_service_in_literal_loop. Qed.
+Print Assumptions C05_service_in_literal_loop.
+
+(* the denotation of a literal counting loop, any oracle *)
+Theorem C05_den_count_literal :
+  forall orc F ie v N b k q D q',
+    den_loop orc F ie (XCount v (LimInt N) b) k q = Ok (D, q') ->
+    exists Ds, D = concat Ds /\ List.length Ds = N - k /\
+               forall j, j < N - k ->
+                         exists qa qb, den_block orc F ((v, k + j) :: ie) b 0 qa = Ok (nth j Ds [], qb).
+Proof. exact den_count_literal. Qed.
+Print Assumptions C05_den_count_literal.
+
+(* ---- the invariants ---- *)
+Theorem C05_start_invariant :
+  forall orc, counter_free orc -> forall imm f,
+      (forall ctx ie s g st g',
+          start_stmt orc imm f ctx ie s g = Ok (st, g') ->
+          exists E, LogD E g g' /\
+                    forall R, RS orc ie s st R ->
+                              exists D, DS orc ie s D /\ Permutation.Permutation D (E ++ R)) /\
+      (forall ctx ie ss i g r g',
+          run_block orc imm f ctx ie ss i g = Ok (r, g') ->
+          exists E, LogD E g g' /\
+                    forall R, RO orc ie ss r R ->
+                              exists D, DB orc ie ss i D /\ Permutation.Permutation D (E ++ R)) /\
+      (forall ctx l g sts g',
+          start_list orc imm f ctx l g = Ok (sts, g') ->
+          exists E, LogD E g g' /\
+                    forall R, RL orc l sts R ->
+                              exists D, DL orc l D /\ Permutation.Permutation D (E ++ R)) /\
+      (forall ctx ie s k g st g',
+          loop_test orc imm f ctx ie s k g = Ok (st, g') ->
+          exists E, LogD E g g' /\
+                    forall R, RS orc ie s st R ->
+                              exists D, DLoop orc ie s k D /\ Permutation.Permutation D (E ++ R)).
+Proof. exact start_conf. Qed.
+Print Assumptions C05_start_invariant.
+
+Theorem C05_start_invariant_den :
+  forall orc imm f ctx ie s g st g' F D q' R,
+    counter_free orc ->
+    start_stmt orc imm f ctx ie s g = Ok (st, g') ->
+    den_stmt orc F ie s (g_q g) = Ok (D, q') ->
+    RS orc ie s st R ->
+    exists E, LogD E g g' /\ Permutation.Permutation D (E ++ R).
+Proof. exact start_stmt_den. Qed.
+Print Assumptions C05_start_invariant_den.
+
+Theorem C05_deliver_invariant :
+  forall orc, counter_free orc -> forall imm f,
+      (forall ctx ie s st id g st' g',
+          deliver orc imm f ctx ie s st id g = Ok (Some st', g') -> wf s st ->
+          exists E, LogD E g g' /\
+                    forall R', RS orc ie s st' R' ->
+                               exists R, RS orc ie s st R /\ Permutation.Permutation R (E ++ R')) /\
+      (forall ctx ie ss i sti id g r g',
+          deliver_block orc imm f ctx ie ss i sti id g = Ok (Some r, g') -> wf_block ss i sti ->
+          exists E, LogD E g g' /\
+                    forall R', RO orc ie ss r R' ->
+                               exists R, RB orc ie ss i sti R /\ Permutation.Permutation R (E ++ R')) /\
+      (forall ctx l sts id g sts' g',
+          deliver_list orc imm f ctx l sts id g = Ok (Some sts', g') -> wf_list l sts ->
+          exists E, LogD E g g' /\
+                    forall R', RL orc l sts' R' ->
+                               exists R, RL orc l sts R /\ Permutation.Permutation R (E ++ R')).
+Proof. exact deliver_conf. Qed.
+Print Assumptions C05_deliver_invariant.
+
+(* one API call: what it logs + what is still to come afterwards = what was still to come *)
+Theorem C05_api_invariant :
+  forall orc, counter_free orc -> forall imm body f s c b s',
+      PInv body s -> lst_all (g_ls (sc_g s)) ->
+      api_call orc imm f body s c = Ok (b, s') ->
+      forall R', RRoot orc body (sc_root s') R' ->
+                 exists R, RRoot orc body (sc_root s) R /\
+                           Permutation.Permutation R (dev_of_log (cr_log (observe b s')) ++ R').
+Proof. exact api_conf. Qed.
+Print Assumptions C05_api_invariant.
+
+(* ---- histories that are not complete ---- *)
+(* whenever the denotation exists: emitted so far + residual of the state reached is a
+   permutation of the denotation; hence no event ever occurs more often than the denotation says *)
+Theorem C05_confluence_prefix :
+  forall orc imm fuel body script tr F mid q',
+    counter_free orc ->
+    run_script orc imm fuel body sched0 script = Ok tr ->
+    den_block orc F [] body 0 0 = Ok (mid, q') ->
+    exists sF rest,
+      exec orc imm body fuel sched0 script = Ok sF /\
+      RRoot orc body (sc_root sF) rest /\
+      Permutation.Permutation
+        (DN TS production_task root_site [] :: mid ++ [DN TF production_task root_site []])
+        (trace_devs tr ++ rest).
+Proof. exact confluence_prefix. Qed.
+Print Assumptions C05_confluence_prefix.
+
+Theorem C05_confluence_prefix_count :
+  forall orc imm fuel body script tr F mid q' (p : dev -> bool),
+    counter_free orc ->
+    run_script orc imm fuel body sched0 script = Ok tr ->
+    den_block orc F [] body 0 0 = Ok (mid, q') ->
+    List.length (filter p (trace_devs tr)) <=
+    List.length (filter p (DN TS production_task root_site [] :: mid ++ [DN TF production_task root_site []])).
+Proof. exact confluence_prefix_count. Qed.
+Print Assumptions C05_confluence_prefix_count.
+
+Theorem C05_service_in_literal_loop_at_most :
+  forall orc imm fuel script tr v N n a ins,
+    counter_free orc ->
+    run_script orc imm fuel [XCount v (LimInt N) [XService n a ins]] sched0 script = Ok tr ->
+    List.length (filter (is_start_of n a) (trace_devs tr)) <= N.
+Proof. exact RefConfluence.C05_service_in_literal_loop_at_most. Qed.
+Print Assumptions C05_service_in_literal_loop_at_most.
+
+(* the residual of the state a start / a delivery produces exists whenever the denotation /
+   the residual before does *)
+Theorem C05_residual_exists_start :
+  forall orc, counter_free orc -> forall imm f,
+      (forall ctx ie s g st g',
+          start_stmt orc imm f ctx ie s g = Ok (st, g') ->
+          forall D, DS orc ie s D -> exists R, RS orc ie s st R) /\
+      (forall ctx ie ss i g r g',
+          run_block orc imm f ctx ie ss i g = Ok (r, g') ->
+          forall D, DB orc ie ss i D -> exists R, RO orc ie ss r R) /\
+      (forall ctx l g sts g',
+          start_list orc imm f ctx l g = Ok (sts, g') ->
+          forall D, DL orc l D -> exists R, RL orc l sts R) /\
+      (forall ctx ie s k g st g',
+          loop_test orc imm f ctx ie s k g = Ok (st, g') ->
+          forall D, DLoop orc ie s k D -> exists R, RS orc ie s st R).
+Proof. exact start_fwd. Qed.
+Print Assumptions C05_residual_exists_start.
+
+Theorem C05_residual_exists_deliver :
+  forall orc, counter_free orc -> forall imm f,
+      (forall ctx ie s st id g st' g',
+          deliver orc imm f ctx ie s st id g = Ok (Some st', g') ->
+          forall R, RS orc ie s st R -> exists R', RS orc ie s st' R') /\
+      (forall ctx ie ss i sti id g r g',
+          deliver_block orc imm f ctx ie ss i sti id g = Ok (Some r, g') ->
+          forall R, RB orc ie ss i sti R -> exists R', RO orc ie ss r R') /\
+      (forall ctx l sts id g sts' g',
+          deliver_list orc imm f ctx l sts id g = Ok (Some sts', g') ->
+          forall R, RL orc l sts R -> exists R', RL orc l sts' R').
+Proof. exact deliver_fwd. Qed.
+Print Assumptions C05_residual_exists_deliver.
+
+(* the executable residual [rest_*] computes the relation [RS]/[RB]/[RL] *)
+Theorem C05_rest_sound :
+  forall orc, counter_free orc -> forall f,
+      (forall ie s st R, rest_stmt orc f ie s st = Ok R -> RS orc ie s st R) /\
+      (forall ie ss i st R, rest_block orc f ie ss i st = Ok R -> RB orc ie ss i st R) /\
+      (forall l sts R, rest_list orc f l sts = Ok R -> RL orc l sts R).
+Proof. exact rest_sound. Qed.
+Print Assumptions C05_rest_sound.
+
+(* ... and every residual is computed by [rest_*] at any sufficient fuel; the invariants in
+   function form *)
+Theorem C05_rest_complete :
+  forall orc,
+      (forall ie s st R, RS orc ie s st R -> exists F, forall F', F <= F' -> rest_stmt orc F' ie s st = Ok R) /\
+      (forall ie ss i st R, RB orc ie ss i st R -> exists F, forall F', F <= F' -> rest_block orc F' ie ss i st = Ok R) /\
+      (forall l sts R, RL orc l sts R -> exists F, forall F', F <= F' -> rest_list orc F' l sts = Ok R).
+Proof. exact rest_complete. Qed.
+Print Assumptions C05_rest_complete.
+
+Theorem C05_start_invariant_rest :
+  forall orc imm f ctx ie s g st g' F R,
+    counter_free orc ->
+    start_stmt orc imm f ctx ie s g = Ok (st, g') ->
+    rest_stmt orc F ie s st = Ok R ->
+    exists E F' D q',
+      LogD E g g' /\ den_stmt orc F' ie s (g_q g) = Ok (D, q') /\ Permutation.Permutation D (E ++ R).
+Proof. exact start_stmt_rest. Qed.
+Print Assumptions C05_start_invariant_rest.
+
+Theorem C05_deliver_invariant_rest :
+  forall orc imm f ctx ie s st id g st' g' F R',
+    counter_free orc ->
+    deliver orc imm f ctx ie s st id g = Ok (Some st', g') -> wf s st ->
+    rest_stmt orc F ie s st' = Ok R' ->
+    exists E F' R,
+      LogD E g g' /\ rest_stmt orc F' ie s st = Ok R /\ Permutation.Permutation R (E ++ R').
+Proof. exact deliver_stmt_rest. Qed.
+Print Assumptions C05_deliver_invariant_rest.
+
+(* with a counter-free oracle the denotation does not depend on the query counter,
+   and (any oracle) more fuel does not change it *)
+Theorem C05_den_counter_independent :
+  forall orc, counter_free orc -> forall f,
+      (forall ie s q D q', den_stmt orc f ie s q = Ok (D, q') ->
+                           forall q2, exists q2', den_stmt orc f ie s q2 = Ok (D, q2')) /\
+      (forall ie ss i q D q', den_block orc f ie ss i q = Ok (D, q') ->
+                              forall q2, exists q2', den_block orc f ie ss i q2 = Ok (D, q2')) /\
+      (forall l q D q', den_list orc f l q = Ok (D, q') ->
+                        forall q2, exists q2', den_list orc f l q2 = Ok (D, q2')) /\
+      (forall ie s k q D q', den_loop orc f ie s k q = Ok (D, q') ->
+                             forall q2, exists q2', den_loop orc f ie s k q2 = Ok (D, q2')).
+Proof. exact den_const. Qed.
+Print Assumptions C05_den_counter_independent.
+
+Theorem C05_den_fuel_monotone :
+  forall orc f,
+      (forall ie s q r, den_stmt orc f ie s q = Ok r -> den_stmt orc (S f) ie s q = Ok r) /\
+      (forall ie ss i q r, den_block orc f ie ss i q = Ok r -> den_block orc (S f) ie ss i q = Ok r) /\
+      (forall l q r, den_list orc f l q = Ok r -> den_list orc (S f) l q = Ok r) /\
+      (forall ie s k q r, den_loop orc f ie s k q = Ok r -> den_loop orc (S f) ie s k q = Ok r).
+Proof. exact den_mono. Qed.
+Print Assumptions C05_den_fuel_monotone.
+
+(* the termination caveat: a top-level while loop whose guard is true under the (counter-free)
+   valuation: no history of the order ever completes *)
+Theorem C05_while_true_never_completes :
+  forall orc imm fuel body script tr i e b q0,
+    counter_free orc ->
+    nth_error body i = Some (XWhile e b) ->
+    decide expected_ops orc e 0 = Ok (true, q0) ->
+    run_script orc imm fuel body sched0 script = Ok tr ->
+    forall r, In r tr -> cr_final r = false.
+Proof. exact while_true_never_completes_decide. Qed.
+Print Assumptions C05_while_true_never_completes.
+
+(* ---- non-vacuity, and necessity of the hypothesis ---- *)
+Theorem C05_confluence_nonvacuous :
+  exists tr mid q',
+    run_script (corc ConfluenceExample.rho) ConfluenceExample.imm 50 ConfluenceExample.body sched0
+               ConfluenceExample.script = Ok tr
+    /\ (exists r, In r tr /\ cr_final r = true)
+    /\ den_block (corc ConfluenceExample.rho) 50 [] ConfluenceExample.body 0 0 = Ok (mid, q')
+    /\ trace_devs tr <> DN TS production_task root_site [] :: mid ++ [DN TF production_task root_site []]
+    /\ Permutation.Permutation
+         (trace_devs tr)
+         (DN TS production_task root_site [] :: mid ++ [DN TF production_task root_site []]).
+Proof. exact confluence_nonvacuous. Qed.
+Print Assumptions C05_confluence_nonvacuous.
+
+Theorem C05_confluence_prefix_nonvacuous :
+  let script := [AStart; AFinish 1; AJunk; AFinish 0] in
+  exists tr sF cid i st R mid q',
+    run_script (corc ConfluenceExample.rho) ConfluenceExample.imm 50 ConfluenceExample.body sched0 script = Ok tr
+    /\ exec (corc ConfluenceExample.rho) ConfluenceExample.imm ConfluenceExample.body 50 sched0 script = Ok sF
+    /\ sc_root sF = Some (RCall cid i st)
+    /\ rest_block (corc ConfluenceExample.rho) 50 [] ConfluenceExample.body i st = Ok R
+    /\ List.length R = 9
+    /\ den_block (corc ConfluenceExample.rho) 50 [] ConfluenceExample.body 0 0 = Ok (mid, q')
+    /\ Permutation.Permutation
+         (DN TS production_task root_site [] :: mid ++ [DN TF production_task root_site []])
+         (trace_devs tr ++ R ++ [DN TF production_task root_site []]).
+Proof. exact confluence_prefix_nonvacuous. Qed.
+Print Assumptions C05_confluence_prefix_nonvacuous.
+
+Theorem C05_confluence_needs_counter_free :
+  exists tr1 tr2,
+    run_script NeedsCounterFree.orc NeedsCounterFree.never 50 NeedsCounterFree.body sched0
+               NeedsCounterFree.script1 = Ok tr1
+    /\ run_script NeedsCounterFree.orc NeedsCounterFree.never 50 NeedsCounterFree.body sched0
+                  NeedsCounterFree.script2 = Ok tr2
+    /\ existsb cr_final tr1 = true /\ existsb cr_final tr2 = true
+    /\ ~ Permutation.Permutation (trace_devs tr1) (trace_devs tr2).
+Proof. exact confluence_needs_counter_free. Qed.
+Print Assumptions C05_confluence_needs_counter_free.
